@@ -96,6 +96,11 @@ def unit(bits):
           ''.join('            (val(spec_root(%d)) * val(spec_root(%d))) %% PP() == val(spec_root(%d)),\n' % (i, i, i - 1) for i in range(1, nr)) +
           '{\n    assert(val(spec_root(0)) == 1 && val(spec_root(1)) == PP() - 1 && val(%s_HALF as int) * 2 %% PP() == 1 && %s_HALF < %s_PRIME && %s_G < %s_PRIME) by (compute);\n' % (P, P, P, P, P) +
           ''.join('    assert((val(spec_root(%d)) * val(spec_root(%d))) %% PP() == val(spec_root(%d))) by (compute);\n' % (i, i, i - 1) for i in range(1, nr)) + '}\n', 'roots')
+    # BIT_MASK (rejection sampling, C11): 2^b - 1 with b the bit length of the modulus, so every residue passes the mask
+    # and a masked sample is < 2p
+    b = c['PRIME'].bit_length()
+    u.raw('proof fn lemma_bit_mask()\n    ensures %s_BIT_MASK as int == %d, // == 2^%d - 1, %d == bit length of the modulus\n            (%s_PRIME as int) <= %d, %d < 2 * (%s_PRIME as int),\n{\n    assert(%s_BIT_MASK as int == %d && (%s_PRIME as int) <= %d && %d < 2 * (%s_PRIME as int)) by (compute);\n}\n'
+          % (P, (1 << b) - 1, b, b, P, (1 << b) - 1, (1 << b) - 1, P, P, (1 << b) - 1, P, (1 << b) - 1, (1 << b) - 1, P), 'bit-mask')
     common = [(r'\$elem\b', E, '*'), (r'\$fp::add\(', 'fp_add(', '*'), (r'\$fp::sub\(', 'fp_sub(', '*'), (r'\$fp::mul\(', 'fp_mul(', '*'),
               (r'\$fp::neg\(', 'fp_neg(', '*'), (r'\$fp::inv\(', 'fp_inv(', '*'), (r'\$fp::pow\(', 'fp_pow(', '*'),
               (r'\$fp::montgomery\(', 'fp_montgomery(', '*'), (r'\$fp::residue\(', 'fp_residue(', '*'),
